@@ -430,6 +430,30 @@ func c17Types() []c17Type {
 	ts = append(ts, c17Type{name: "limiter.QueueBlockingLimiter(contended)", mk: func() any {
 		return limiter.NewQueueBlockingLimiterFromConfig(mkTight(), limiter.QueueLimiterConfig{MaxBacklogSize: 4, MaxBacklogTimeout: 10 * time.Millisecond})
 	}, ops: limOps()[:1]})
+	// the queue limiter's gauges polled by a registry thread while callers enter and leave the backlog
+	// (the only token is held, so every caller is queued and leaves through its 10 ms timeout)
+	type qGauged struct {
+		l   core.Limiter
+		reg *RecRegistry
+	}
+	ts = append(ts, c17Type{name: "limiter.QueueBlockingLimiter(backlog gauges)", mk: func() any {
+		reg := NewRecRegistry()
+		d := mkTight()
+		if _, ok := d.Acquire(bg); !ok {
+			panic("setup")
+		}
+		return &qGauged{limiter.NewQueueBlockingLimiterFromConfig(d, limiter.QueueLimiterConfig{MaxBacklogSize: 4, MaxBacklogTimeout: 10 * time.Millisecond,
+			BacklogEvictDoneCtx: true, MetricRegistry: reg}), reg}
+	}, ops: []c17Op{
+		{"Acquire(queued, times out)", func(i any) { i.(*qGauged).l.Acquire(bg) }},
+		{"poll gauges", func(i any) {
+			r := i.(*qGauged).reg
+			for _, k := range r.GaugeKeys() {
+				r.Gauges[k]()
+			}
+		}},
+		{"String", func(i any) { _ = fmt.Sprint(i.(*qGauged).l) }},
+	}})
 	// measurements
 	measOps := func() []c17Op {
 		return []c17Op{
